@@ -24,7 +24,7 @@ import (
 
 func TestMain(m *testing.M) { kit.Main(m) }
 
-const rule = "(races, -race build) generated applications (node-family components, 0-3 user definition scanners each rejecting 0-3 drawn components under drawn yields, 0-4 closers some failing) are started and shut down under GOMAXPROCS 2/4/16; the oracle is the Go race detector; (atomicity) histories of Load/Store/LoadOrStore/LoadOrStoreFn/Delete on sync2.Map and Put/Exists/Remove on the concurrent sets over 2 keys - with the harness owning the schedule through the LoadOrStoreFn callback (caller 1 parked inside f while caller 2 runs complete operations) and with 3-6 free-running goroutines - are checked for linearizability against the sequential map/set model (porcupine); non-trivial = >=2 components rejected by one scanner or a failing closer (races), >=2 overlapping operations on one key (atomicity); distinct by scenario / history"
+const rule = "(races, -race build) generated applications (node-family components, 0-3 user definition scanners each rejecting 0-3 drawn components under drawn yields, 0-4 closers some failing) are started and shut down under GOMAXPROCS 2/4/16; the oracle is the Go race detector; (atomicity) histories of Load/Store/LoadOrStore/LoadOrStoreFn/Delete on sync2.Map and Put/Exists/Remove on the concurrent sets over 2 keys - with the harness owning the schedule through the LoadOrStoreFn callback (caller 1 parked inside f while caller 2 runs complete operations) and with 3-6 free-running goroutines - are checked for linearizability against the sequential map/set model (porcupine); the whole set interface (initial elements, PutAll/RemoveAll/ExistsAny/ExistsAll/Length/ToArray/ForEach) is run one operation at a time against a plain map; non-trivial = >=2 components rejected by one scanner or a failing closer (races), >=2 overlapping operations on one key (atomicity); distinct by scenario / history"
 
 // ---------------------------------------------------------------------------------------------------
 // races
@@ -575,5 +575,110 @@ func TestRealLoggerCloseErrors(t *testing.T) {
 		}
 		out.App.Close()
 		kit.Rec.Case(fmt.Sprintf("real-logger %d failing closers procs=%d", n, procs), true, "real-logger-close-errors")
+	})
+}
+
+// TestSetsSequentialModel: the whole set interface (constructor with initial elements, Put/PutAll,
+// Remove/RemoveAll, Exists/ExistsAny/ExistsAll, Length, ToArray, ForEach) of both concurrent set
+// implementations against a plain map, one operation at a time (the sequential histories are the base case
+// of "every concurrent history is equivalent to some sequential one").
+func TestSetsSequentialModel(t *testing.T) {
+	kit.Rec.Rule(rule)
+	keyGen := rapid.SampledFrom([]string{"a", "b", "c", "d"})
+	keysGen := rapid.SliceOfN(keyGen, 0, 3)
+	rapid.Check(t, func(t *rapid.T) {
+		which := rapid.SampledFrom([]string{"ConcurrentSets", "GenericConcurrentSets"}).Draw(t, "impl")
+		init := keysGen.Draw(t, "initial")
+		var s list.Set
+		if which == "ConcurrentSets" {
+			s = list.NewConcurrentSets(init...)
+		} else {
+			s = list.NewGenericConcurrentSets[string](init...)
+		}
+		model := map[string]bool{}
+		for _, k := range init {
+			model[k] = true
+		}
+		var hist []string
+		check := func() {
+			arr := s.ToArray()
+			sort.Strings(arr)
+			var want []string
+			for k := range model {
+				want = append(want, k)
+			}
+			sort.Strings(want)
+			if fmt.Sprint(arr) != fmt.Sprint(want) {
+				t.Fatalf("C20: %s after %v: ToArray gives %v, the set is %v", which, hist, arr, want)
+			}
+			if s.Length() != len(model) {
+				t.Fatalf("C20: %s after %v: Length gives %d, the set has %d elements", which, hist, s.Length(), len(model))
+			}
+			var seen []string
+			s.ForEach(func(k string) { seen = append(seen, k) })
+			sort.Strings(seen)
+			if fmt.Sprint(seen) != fmt.Sprint(want) {
+				t.Fatalf("C20: %s after %v: ForEach visits %v, the set is %v", which, hist, seen, want)
+			}
+		}
+		check()
+		t.Repeat(map[string]func(*rapid.T){
+			"put": func(t *rapid.T) {
+				k := keyGen.Draw(t, "k")
+				s.Put(k)
+				model[k] = true
+				hist = append(hist, "put "+k)
+			},
+			"putall": func(t *rapid.T) {
+				ks := keysGen.Draw(t, "ks")
+				s.PutAll(ks...)
+				for _, k := range ks {
+					model[k] = true
+				}
+				hist = append(hist, fmt.Sprint("putall ", ks))
+			},
+			"remove": func(t *rapid.T) {
+				k := keyGen.Draw(t, "k")
+				s.Remove(k)
+				delete(model, k)
+				hist = append(hist, "remove "+k)
+			},
+			"removeall": func(t *rapid.T) {
+				ks := keysGen.Draw(t, "ks")
+				s.RemoveAll(ks...)
+				for _, k := range ks {
+					delete(model, k)
+				}
+				hist = append(hist, fmt.Sprint("removeall ", ks))
+			},
+			"exists": func(t *rapid.T) {
+				k := keyGen.Draw(t, "k")
+				if got := s.Exists(k); got != model[k] {
+					t.Fatalf("C20: %s after %v: Exists(%s)=%v, want %v", which, hist, k, got, model[k])
+				}
+			},
+			"existsany": func(t *rapid.T) {
+				ks := keysGen.Draw(t, "ks")
+				want := false
+				for _, k := range ks {
+					want = want || model[k]
+				}
+				if got := s.ExistsAny(ks...); got != want {
+					t.Fatalf("C20: %s after %v: ExistsAny(%v)=%v, want %v", which, hist, ks, got, want)
+				}
+			},
+			"existsall": func(t *rapid.T) {
+				ks := keysGen.Draw(t, "ks")
+				want := true
+				for _, k := range ks {
+					want = want && model[k]
+				}
+				if got := s.ExistsAll(ks...); got != want {
+					t.Fatalf("C20: %s after %v: ExistsAll(%v)=%v, want %v", which, hist, ks, got, want)
+				}
+			},
+			"": func(t *rapid.T) { check() },
+		})
+		kit.Rec.Case(which+fmt.Sprint(" init ", init, " ", hist), len(hist) >= 3, "sets-sequential/"+which)
 	})
 }
